@@ -57,7 +57,8 @@ CHECKS = {
         'persisted copy fed the same inputs and external results, TLC checks ModeEquiv and SnapshotRoundTrip on model programs; on the real code every generated history is '
         'served twice (one long-lived engine vs fresh engine + Persister per request) over memory, filesystem and the Postgres driver on an in-process fake, and TLC '
         'compares the transcripts and the re-read stored snapshot with the live session (ViseTrace C07_*).'
-        ' Two sessions alternating through ONE reused Persister (WithFlush) must give the transcripts of fresh persisters (C07_Reuse*).',
+        ' Two sessions alternating through ONE reused Persister (WithFlush) must give the transcripts of fresh persisters (C07_Reuse*).'
+        ' engine.Loop (Loop.tla): every second history is also served through the real line-oriented driver (trimmed lines, missing final line feed, tagged writes) and the rest of it by fresh engines from the store; TLC compares with LoopRun applied to the reference answers (C07_LoopInputs / LoopRefines / LoopResume).',
    design_ref='DESIGN.md section 6 (C07)',
    note='Trusted: TLC, recorder, fakepg (in-process transactional fake of the pgx interface). gdbm cannot be built in this sandbox. Comparison up to the end of the session.',
    technique='TLA+ product model (ViseEq) checked with TLC + two-run trace validation of the real engine on three stores'),
@@ -70,7 +71,8 @@ CHECKS = {
         ' Engine options (ResetOnEmptyInput, WithFirst incl. failing / blocking pre-VM checks) are part of the model programs and drawn for random programs.'
         ' ViseInd.tla shows the session invariants (one scope per level, accounting, path, no panic, TERMINATE gate) to be inductive over the run-loop iteration: one Iter from every invariant-satisfying session of a bounded universe.'
         ' A refused request (bad format, over-long) leaves the pending code pending (C08_RefusedContinuable).'
-        ' After every accepted request the session is blocked / has pending code exactly as the specification says (C08_ReqContinuable).',
+        ' After every accepted request the session is blocked / has pending code exactly as the specification says (C08_ReqContinuable).'
+        ' engine.Loop never panics or hangs on these histories (C08_LoopNoPanic).',
    design_ref='DESIGN.md section 6 (C08)',
    note='Trusted: TLC, recorder, generator of well-formed programs. Known findings (CROAK keeps path; maxlevel panic) are matched by specific predicates, everything else fails the check. Example applications: see evidence.',
    technique='TLA+ interpreter spec + TLC model checking + trace validation of recorded real runs (exhaustive small histories, random beyond)'),
@@ -79,9 +81,10 @@ CHECKS = {
    text='Reject / FlushBeforeExec are explicit no-op transitions of Engine.tla; ViseMC inserts refused inputs (bad format, over-long) at every position of every model '
         'history and checks RejectNoEffect; on the real engine TLC compares the session before/after every refused request (position, flags, cache, code, stored record, '
         'no instruction, no external call, no output) and paired runs with/without inserted refused inputs must give identical transcripts.'
-        ' Applications with a pre-VM check are judged too (C17_RefusedFirst: position, cache scopes, pending code, language unchanged; outcome as the specification says).',
+        ' Applications with a pre-VM check are judged too (C17_RefusedFirst: position, cache scopes, pending code, language unchanged; outcome as the specification says).'
+        ' A third of the generated applications accept an extra input format (engine.AddValidInput); look-alikes of it are among the refused inputs.',
    design_ref='DESIGN.md section 6 (C17)',
-   note='Trusted: TLC, recorder; input classes computed by the harness from the documented pattern, independently of vm.ValidInput. Custom validators (AddValidInput) not covered.',
+   note='Trusted: TLC, recorder; input classes computed by the harness from the documented pattern, independently of vm.ValidInput (incl. the extra format of applications that add one).',
    technique='TLA+ spec + TLC model checking + trace validation incl. two-run comparison'),
  'C18': dict(
    category='model_checking',
@@ -137,7 +140,8 @@ CHECKS = {
    text='Bytecode.tla defines Enc/Dec over byte sequences (32-bit integers as byte 4-tuples); TLC checks RoundTrip, ProgramRoundTrip, MinimalWidth and the adjacency of the four '
         'integer width classes for all 12 opcodes x symbol lengths {1,2,254,255} x boundary integers x both modes; every enumerated instruction and generated whole programs go through '
         'vm.NewLine, the assembler (asm.Parse of the printed source), vm.Parse* and ParseHandler.ToString, and TLC compares bytes, decoded records, consumed lengths and listing with the spec; '
-        'a Go sweep runs every uint32 (thorough) through the assembler\'s integer writer and the VM\'s integer reader against the TLC-checked class table.',
+        'a Go sweep runs every uint32 (thorough) through the assembler\'s integer writer and the VM\'s integer reader against the TLC-checked class table.'
+        ' A quarter of the generated symbols carry punctuation (format verbs, quotes, braces, backslashes) and non-ASCII bytes.',
    design_ref='DESIGN.md section 6 (C14)',
    note='Trusted: TLC, harness parsing of the listing, verif accessor asm.VerifWriteSize. Interior of the width classes: Go sweep against the table, not TLC per value.',
    technique='TLA+ spec (Bytecode.tla) + TLC model checking + trace validation of all real encoders/decoders + exhaustive integer sweep'),
@@ -164,7 +168,8 @@ CHECKS = {
    text='KvStore.tla models a backend handle (sticky prefix / session / language, lock mask, seal) over the keyed map LogicalKey -> value with translation fallback; TLC checks '
         'LockedPutNoChange, SealIrreversible, ReadYourWrite, OnlyPutChanges over all operation sequences to a bound and emits them; every behaviour and random well-formed histories '
         '(incl. Dump on the filesystem backend) run on mem, fs (text keys), fs (binary keys) and the Postgres driver over the fake, and TLC judges every real operation against the model '
-        'folded over the recorded sequence - so the four backends are compared with the model and thereby with each other.',
+        'folded over the recorded sequence - so the four backends are compared with the model and thereby with each other.'
+        ' The lock argument is a bit mask (MaskTypes): combined masks before and after sealing are part of the model alphabet and of fixed sequences.',
    design_ref='DESIGN.md section 6 (C10)',
    note='Trusted: TLC, recorder, fakepg. gdbm cannot be built here. Dump judged for non-translatable types with a session selected.',
    technique='TLA+ spec (KvStore.tla) + TLC model checking + trace validation of four real backends'),
@@ -198,7 +203,8 @@ CHECKS = {
         'capacity) run under the Go race detector with transcript comparison and a check that shared data is unmodified.'
         " FsSaveConc.tla: the file operations of two real saves (strace) run as two processes over a directory with names, inodes and open files; TLC explores every interleaving (each record ends as its own session's complete state). Free-running mode F: own fs store handles on one shared directory."
         ' Half of the histories are served with a configured default language; the language a session ends each request with is part of the transcripts.'
-        ' A third of the histories run with state debugging; the solo references are computed after the concurrent phase so that lazy first-use initialisation happens while sessions run side by side.',
+        ' A third of the histories run with state debugging; the solo references are computed after the concurrent phase so that lazy first-use initialisation happens while sessions run side by side.'
+        ' Every fifth application adds an input format to each of its engines (engine.AddValidInput) while other sessions send inputs that consult the formats.',
    design_ref='DESIGN.md section 6 (C19)',
    note='Trusted: TLC, the Go race detector (decides the "no data race" half), the hook gate. The model covers aliasing of the code buffer; other shared state is searched for by the race detector only.',
    technique='TLA+ interleaving/aliasing model + TLC schedules replayed deterministically + race-detector runs'),
